@@ -147,16 +147,24 @@ func c09Run(ctx *run.Ctx, id run.CaseID) {
 	ctx.Count("eligible_samples", int64(len(samples)))
 	oedgesIn := oracle.NewEdges(false, oc.Open)
 	sawCov, sawUncov := false, false
+	// the engine's PreserveCollinear option (reachable only through the verif hook: the engine's default is true) must
+	// not change what happens to OPEN paths; it is switched off for the second fill rule of every other case
+	ropt := gen.ForCase(id.Family+"#opt", id.Index, id.Stream)
 	for k := 0; k < 2; k++ {
+		optPC := !(k == 1 && ropt.Bool())
 		fr := fillRules[r.Intn(4)]
 		for _, ct := range clipTypes {
 			tag := ctName(ct) + "/" + frName(fr)
+			if !optPC {
+				tag += "/pc=false"
+			}
 			var closed, open, closedOnly Paths
 			var ok bool
 			rec := clip.NewVerifRecorder(false)
 			if !ctx.Guard(digest, tag, oc, func() {
 				c := clip.NewClipper64()
 				c.VerifRecord(rec)
+				c.VerifSetOptions(optPC, false)
 				c.AddPaths(oc.Open, clip.Subject, true)
 				c.AddPaths(oc.Subject, clip.Subject, false)
 				c.AddPaths(oc.Clip, clip.Clip, false)
